@@ -66,7 +66,7 @@ func loadKnownFindings() []KnownFinding {
 func findingFor(kfs []KnownFinding, prop, obligation string) *KnownFinding {
 	for i := range kfs {
 		k := &kfs[i]
-		if k.Kind == "finding" && k.Property == prop && k.Obligation == obligation {
+		if k.Kind == "finding" && (k.Property == prop || prop == "all") && k.Obligation == obligation {
 			return k
 		}
 	}
